@@ -4,6 +4,7 @@ import Model.Elab
 import Proofs.WFCheck
 import Proofs.Containers
 import Proofs.Aligned
+import Proofs.BackGlobal
 /-! driver command `J {"op":"sched", …}`: run the scheduler model on one scenario projection -/
 namespace SPD
 open SP Lean
@@ -120,6 +121,16 @@ def runSched (j : Json) : Json :=
     match dt, (σ.tst td.1).start with
     | some d, some v => !((σ.tst td.2.target).scheduled && decide (d + td.2.gap ≤ v))
     | _, _ => !(σ.tst td.2.target).scheduled)
+  -- backward tasks whose deadline comes from their successors: end + gap <= start of every successor
+  let σp := prepare e (initState e)
+  let backs := (List.range e.tasks.size).filter (fun t =>
+    let d := e.taskD t
+    d.leaf && decide (d.effort > 0) && !d.milestone && (σp.tst t).stop.isNone && (σ.tst t).scheduled && !(σ.tst t).forward)
+  let backPairs := backs.flatMap (fun t => (successors e t).map (fun s => (t, s)))
+  let backFail := backPairs.filter (fun (ts : Nat × Nat) =>
+    match (σ.tst ts.2).start, (σ.tst ts.1).stop with
+    | some ss, some v => !((σ.tst ts.2).scheduled && decide (v + succGap e ts.1 ts.2 ≤ ss))
+    | _, _ => !(σ.tst ts.2).scheduled)
   -- containers: scheduled => children scheduled and dates = min / max; all children scheduled => scheduled
   let conts := (List.range e.tasks.size).filter (fun c => !(e.taskD c).leaf && !(e.taskD c).children.isEmpty)
   let contFail := conts.filter (fun c =>
@@ -133,6 +144,7 @@ def runSched (j : Json) : Json :=
   -- calendars: resources whose calendar is aligned with the grid (hypothesis of C02.booked_every_second)
   let nAligned := ((List.range e.res.size).filter (fun r => calAlignedB el.cal (el.rcal.getD r {}))).length
   let thm := Json.mkObj [("resources", Json.num (JsonNumber.fromNat e.res.size)), ("resources_aligned", Json.num (JsonNumber.fromNat nAligned)),
+                         ("back_edges", Json.num (JsonNumber.fromNat backPairs.length)), ("back_fail", Json.num (JsonNumber.fromNat backFail.length)),
                          ("containers", Json.num (JsonNumber.fromNat conts.length)), ("container_fail", Json.num (JsonNumber.fromNat contFail.length)),
                          ("elig", Json.num (JsonNumber.fromNat eligs.length)), ("elig_scheduled", Json.num (JsonNumber.fromNat eligSched.length)),
                          ("effort_exact_fail", Json.num (JsonNumber.fromNat effortFail.length)),
